@@ -1147,8 +1147,11 @@ class Interp:
         return sub or None
 
     def havoc_args(self, st, args):
-        for a in args:
-            if a[0] == 'addr':
+        for a0 in args:
+            # references reachable inside by-value aggregates (closure environments, iterator adaptors) count as well:
+            # the callee can write through every `&mut local` it is handed, however deeply it is wrapped
+            cands = [a0] if a0[0] == 'addr' else [x for x in subterms(a0) if isinstance(x, tuple) and x and x[0] == 'addr']
+            for a in cands[:32]:
                 r = root_of(a[1])
                 if r[0] == 'local':
                     key = (r[1], r[2])
